@@ -955,8 +955,8 @@ Definition mstep_inner (c : cfg) (m : mon) (x : op) (r : out) : verdict * mon :=
 
 Lemma mstep_safe c m x r : out_safe c r -> mstep c m x r = mstep_inner c m x r.
 Proof.
-  intros [Hf Hc]. unfold mstep. rewrite Hc. cbn [negb].
-  destruct (ost r); try reflexivity. contradiction.
+  intros [Hf Hc]. unfold mstep, mstep_inner. rewrite Hc. cbn [negb].
+  destruct r as [st cl]. cbn [ost ocalls] in *. destruct st; try reflexivity. congruence.
 Qed.
 
 Lemma wstatus_true code : (if code =? 0 then SOk else SErr code) = wstatus true code.
@@ -1034,7 +1034,7 @@ Proof.
   - (* SetErr *)
     cbn [fst snd ost sc sh sq]. exists m. split; [reflexivity|exact Hs].
   - (* Rd *)
-    destruct ch; cbn [read_value].
+    destruct ch; cbn [read_value sc sh sq].
     + destruct (read_cp_spec c o k (att_mtu - 1) ltac:(cbn; lia)) as (b & cl & Hr & _).
       rewrite Hr. cbn [fst snd ost sc sh sq]. exists m. split; [reflexivity|exact Hs].
     + destruct (read_data c o k h (att_mtu - 1)) as [[[b k'] h'] cl] eqn:Er.
